@@ -906,9 +906,7 @@ class VectorExpression:
 
     def __rsub__(self, other: float | int) -> VectorExpression:
         # other - self
-        return VectorExpression(
-            [BinaryOp(_ensure_expr(other), expr, "-") for expr in self._expressions]
-        )
+        return _vector_reflected_op(self._expressions, other, "-")
 
     def __mul__(self, other: float | int) -> VectorExpression:
         """Scalar multiplication."""
@@ -923,9 +921,7 @@ class VectorExpression:
 
     def __rtruediv__(self, other: float | int) -> VectorExpression:
         """Right scalar division."""
-        return VectorExpression(
-            [BinaryOp(_ensure_expr(other), expr, "/") for expr in self._expressions]
-        )
+        return _vector_reflected_op(self._expressions, other, "/")
 
     def __neg__(self) -> VectorExpression:
         """Negate all elements."""
@@ -1240,9 +1236,7 @@ class VectorVariable:
 
     def __rsub__(self, other: float | int) -> VectorExpression:
         """Right subtraction: scalar - vector."""
-        return VectorExpression(
-            [BinaryOp(_ensure_expr(other), v, "-") for v in self._variables]
-        )
+        return _vector_reflected_op(self._variables, other, "-")
 
     def __mul__(self, other: float | int) -> VectorExpression:
         """Scalar multiplication: x * 2."""
@@ -1258,9 +1252,7 @@ class VectorVariable:
 
     def __rtruediv__(self, other: float | int) -> VectorExpression:
         """Right scalar division: 1 / x."""
-        return VectorExpression(
-            [BinaryOp(_ensure_expr(other), v, "/") for v in self._variables]
-        )
+        return _vector_reflected_op(self._variables, other, "/")
 
     def __neg__(self) -> VectorExpression:
         """Negate all elements: -x."""
@@ -1614,6 +1606,35 @@ def _vector_constraint(
         _make_constraint(left_expr, sense, right_expr)
         for left_expr, right_expr in zip(left_exprs, right_exprs)
     ]
+
+
+def _vector_reflected_op(
+    right_exprs: Sequence[Expression],
+    left: float | int | np.ndarray | list,
+    op: Literal["-", "/"],
+) -> VectorExpression:
+    """Element-wise ``left op vector`` for a scalar or array-like left operand."""
+    n = len(right_exprs)
+    if isinstance(left, (np.ndarray, list)) and np.ndim(left) > 0:
+        arr = np.asarray(left)
+        if arr.ndim != 1:
+            raise WrongDimensionalityError(
+                context=f"vector {op}",
+                expected_ndim=1,
+                got_ndim=arr.ndim,
+            )
+        if len(arr) != n:
+            raise DimensionMismatchError(
+                operation=f"vector {op}",
+                left_shape=len(arr),
+                right_shape=n,
+            )
+        left_exprs: list[Expression] = [Constant(val) for val in arr]
+    else:
+        left_exprs = [_ensure_expr(left)] * n
+    return VectorExpression(
+        [BinaryOp(le, re, op) for le, re in zip(left_exprs, right_exprs)]
+    )
 
 
 def _vector_binary_op(
